@@ -173,7 +173,7 @@ CHECKS = {
     ),
     "C05": dict(
         modules=["AggkitModel.Properties.C05"],
-        scenarios=[dict(name="downloader"), dict(name="reorgsync")],
+        scenarios=[dict(name="downloader"), dict(name="reorgsync"), dict(name="l1infostore")],
         generated=["SyncFacts"],
         leanchecker=True,
         level_text="Proved in Lean 4 by induction over loop iterations, for every chain, chunk size (0 included), start block and EVERY admissible sequence of (tip, finalized) observations — tip jumps of any size, finalized below/at/above the tip or not moving, failing finalized lookups: "
@@ -208,7 +208,7 @@ CHECKS = {
     ),
     "C03": dict(
         modules=["AggkitModel.Properties.C03"],
-        scenarios=[dict(name="aggsender"), dict(name="certcodec"), dict(name="bridgestore")],
+        scenarios=[dict(name="aggsender"), dict(name="certcodec"), dict(name="bridgestore"), dict(name="claimtrace")],
         generated=["CertFacts"],
         leanchecker=True,
         level_text="Proved in Lean 4. Byte level, for every field value and any 32-byte hash function: C03_exit_leaf — the exit the node builds for a bridge event hashes (BridgeExit.Hash, the Agglayer's side) to exactly the leaf the event has in the L2 exit tree (Bridge.Hash), empty and non-empty metadata alike; C03_exit_fields — every field is carried over unchanged; "
@@ -238,7 +238,7 @@ CHECKS = {
     ),
     "C09": dict(
         modules=["AggkitModel.Properties.C09"],
-        scenarios=[dict(name="aggsender")],
+        scenarios=[dict(name="aggsender"), dict(name="claimtrace")],
         generated=[],
         leanchecker=True,
         level_text="Proved in Lean 4 for any collision-free hash algebra: C09_l1_proof — after ANY well-formed history of the L1 info tree store (blocks, rolled-back blocks, restarts, reorgs), for every recorded version m (the leaf count the certificate names; its root the L1 info root it names) and every leaf index i < m, the proof the node serves for (i, root m) hashes with the i-th leaf to exactly that root (C08's store theorem read for the L1 info tree); C09_leaf_count — root.Index+1 is the number of leaves of that root; "
@@ -253,7 +253,7 @@ CHECKS = {
     "C10": dict(
         modules=["AggkitModel.Properties.C10"],
         scenarios=[dict(name="certcodec"), dict(name="aggsender")],
-        generated=[],
+        generated=["CertFacts"],
         leanchecker=True,
         level_text="Proved in Lean 4 for every certificate (any number of exits and imported exits, any field values) and any collision-free 32-byte hash: C10_pp_sensitive — equal PPHashToSign implies equal new exit root and equal sequence of imported global indexes; C10_fep_sensitive — equal FEPHashToSign implies equal new exit root, height, aggchain params and (global index, exit leaf) sequence; "
                    "C10_exit_sensitive — equal exit leaves imply equal leaf type, token, destination, amount and metadata word; C10_id_sensitive / C10_imp_sensitive — the certificate id covers network, height, both exit roots, every exit leaf and every imported exit (leaf, claim data, global index); hence changing any covered field changes the commitment. "
